@@ -314,6 +314,17 @@ def _br_func(w, f, lang):
             w.nl()
         w.indent()
         w.code(")" + f.get("suffix", ""))
+    elif f.get("suffix_break") and f.get("suffix", "").strip() and not f["suffix"].strip().startswith("=>"):
+        # the throws clause / return type on lines of its own between ')' and the body
+        w.code(head + "(" + ", ".join(params) + ")")
+        w.nl(name_tc)
+        name_tc = None
+        pieces = [x.strip() for x in f["suffix"].strip().split(", ")]
+        for i, piece in enumerate(pieces):
+            w.indent(2)
+            w.code(piece + ("," if i < len(pieces) - 1 else ""))
+            if i < len(pieces) - 1:
+                w.nl()
     else:
         w.code(head + "(" + ", ".join(params) + ")" + f.get("suffix", ""))
     if name_tc is not None:
@@ -650,10 +661,19 @@ class Gen:
             self.labels.add(f"ctrl")
             return node
         kinds = ["if", "for", "while", "switch"] + ([] if L == "C" else ["try"]) + ["do"]
+        if L == "C#":
+            kinds += ["foreach", "using", "lock", "await foreach", "await using"]  # two-word forms start their line with 'await'
+        if L == "Java":
+            kinds += ["synchronized", "foreach"]
         kind = self.pick(kinds)
         decl = {"C": "int", "C++": "int", "C#": "int", "Java": "int", "JavaScript": "let", "TypeScript": "let"}[L]
         head = {"if": f"if ({v} > 1)", "for": f"for ({decl} {v}{self.n} = 0; {v}{self.n} < 3; {v}{self.n}++)", "while": f"while ({v})",
-                "switch": f"switch ({v})", "try": "try", "do": "do"}[kind]
+                "switch": f"switch ({v})", "try": "try", "do": "do",
+                "foreach": f"foreach (var {v}{self.n} in {v}s)" if L == "C#" else f"for (int {v}{self.n} : {v}s)", "using": f"using (var {v}{self.n} = Open({v}))", "lock": "lock (this)",
+                "await foreach": f"await foreach (var {v}{self.n} in {v}s)", "await using": f"await using (var {v}{self.n} = Open({v}))",
+                "synchronized": "synchronized (this)"}[kind]
+        if " " in kind or kind in ("foreach", "using", "lock", "synchronized"):
+            self.labels.add("ctrl_other_keyword")
         node = {"k": "c", "head": head, "brace_next": self.chance(0.25)}
         if node["brace_next"]:
             self.labels.add("ctrl_brace_next_line")
@@ -950,6 +970,12 @@ class Gen:
             if len(f["params"]) > 1 and self.chance(0.4) and not any("*" in p[:2] for p in f["params"][:1]):
                 f["hdr_lines"] = "aligned"
                 self.labels.add("multiline_header_aligned")
+        if L in ("JavaScript", "TypeScript") and f.get("shape") == "function" and not f.get("is_async") and not f.get("prefix") and str(f.get("head", "")).startswith("function ") and self.chance(0.1):
+            f["kw_break"] = True
+            self.labels.add("keyword_and_name_on_separate_lines")
+        if L in ("Java", "TypeScript") and f.get("suffix", "").strip() and not f.get("hdr_lines") and not f["suffix"].strip().startswith("=>") and self.chance(0.3):
+            f["suffix_break"] = True
+            self.labels.add("throws_or_return_type_on_own_lines")
         f["tc_open"] = self.tc()
         if L != "Python":
             f["tc_close"] = self.tc()
